@@ -20,7 +20,7 @@ func c07Prop(st *CaseStats, fam int) func(t *rapid.T) {
 		sc := GenScenario(t)
 		cfg := CaseCfg{Family: fam, MaxDocs: 8, MaxIn: 3, HoldAny: true}
 		depth := rapid.SampledFrom([]int{0, 0, 1, 1, 2}).Draw(t, "depth")
-		if fam != FamSmall {
+		if fam == FamBlocks || fam == FamWide {
 			cfg.MaxIn = 2
 			depth = rapid.SampledFrom([]int{0, 0, 1}).Draw(t, "depth")
 		}
@@ -127,4 +127,10 @@ func TestC07Wide(t *testing.T) {
 	st := NewStats("C07Wide", c07Rule)
 	defer st.Flush()
 	rapid.Check(t, c07Prop(st, FamWide))
+}
+
+func TestC07Mid(t *testing.T) {
+	st := NewStats("C07Mid", c07Rule)
+	defer st.Flush()
+	rapid.Check(t, c07Prop(st, FamMid))
 }
